@@ -10,9 +10,11 @@ persisted attribute values); (2) exactly one subtype per ACT_SMT across R603
 and per V_VAL across R801, counted over all subtype classes; (3) the persisted
 ACT_SMT.Previous_Statement_ID, V_PAR.Next_Value_ID and ACT_LNK.Next_Link_ID
 designate the neighbour in source order; (4) ACT_SMT / V_VAL line and columns
-equal the spans recorded by the printer (two layouts); (5) every V_VAR is
+equal the spans recorded by the printer (two layouts; also after the parser
+rejected another text in the same process -- the history family); (5) every V_VAR is
 related (R823) to the block that declares it; (6) R820 / R848 data types equal
-the OAL types for the cases the property enumerates.
+the OAL types for the cases the property enumerates (also with the keywords
+of the program in UPPER / Capitalised spelling).
 '''
 from mc.props import c05 as C05
 from mc.refs import prebuildhost as H
@@ -32,6 +34,16 @@ ASSUMPTIONS = C05.ASSUMPTIONS[2:] + [
     'the block of the implicit variable self is not claimed (no statement declares it)',
     'positions are checked under two layouts: one line with single spaces, and a line break plus indentation after every ";" '
     '(every program under the first, every program in one home under the second; thorough: a third with a line break in every gap)',
+    'keyword case: every program containing a keyword the parser hands on as written (not, empty, not_empty, cardinality, and, or, '
+    'true, false, any, many, one, self) is additionally translated with ALL keywords in UPPER case (one home) and, for the statement / '
+    'expression / names families, Capitalised (another home; thorough: every family, plus aLtErNaTiNg); the oracle is unchanged '
+    '(OAL keywords are case-insensitive, so typing and positions are those of the lower-case program)',
+    'history family: the translation under test is preceded, in the same process, by parses / prebuild attempts of action texts the '
+    'parser rejects with ParseException (offending token on line 1, 2, 4, at the end of input, behind a multi-line comment), by a parse '
+    'of a well-formed three-line text, or by two rejected attempts; a rejected prebuild attempt must leave no action instance behind '
+    '(otherwise the run is not judged and the exploration reported as capped); the population of the well-formed action is then checked '
+    'with the same oracle.  Histories of successful prebuilds in the same model are not explored (their instances would be part of the '
+    'population); a second model in the same process is the second-model family',
 ]
 
 
@@ -43,6 +55,9 @@ def task_fn(ctx, task):
     H.stop_if_violated(ctx)
 
 
+KWCASE_BOTH = ('statements', 'expressions', 'names')      # families rendered in UPPER and in Capitalised keywords (quick)
+
+
 def with_layouts(ctx, tasks):
     progs = {}
     for t in tasks:
@@ -52,13 +67,38 @@ def with_layouts(ctx, tasks):
             t['layouts'] = ['default']
         pick = ts[(n + ctx.seed) % len(ts)]
         pick['layouts'] = ['default', 'lines'] + (['spread'] if ctx.thorough else [])
+        # keyword case: programs in which a keyword is handed on to the translator as written (operators, select
+        # cardinality, boolean literals, self as instance name), each style in another home than the line layout
+        if H.spells_keywords_through(ts[0]['stmts']):
+            styles = ['upper']
+            if ctx.thorough or ts[0]['family'] in KWCASE_BOTH:
+                styles.append('cap')
+            if ctx.thorough:
+                styles.append('mixed')
+            for k, style in enumerate(styles, 1):
+                ts[(n + ctx.seed + k) % len(ts)]['layouts'].append(style)
     return tasks
+
+
+def history_tasks(ctx, tasks):
+    '''The history family: every history of prebuildhost.histories() before every k-th program of the statement family
+    (homes rotate with the programs), alternately in the one-line and in the multi-line layout.'''
+    pool = [t for t in tasks if t['family'] == 'statements']
+    want = 24 if ctx.quick else 120
+    picked = pool[(ctx.seed * 7) % 11:: max(1, len(pool) // want)][:want]
+    out = []
+    for n, t in enumerate(picked):
+        for k, h in enumerate(H.histories()):
+            out.append(dict(family='history', stmts=t['stmts'], home=t['home'], entry=t['entry'], history=h,
+                            layouts=['lines' if (n + k) % 2 else 'default']))
+    return out
 
 
 def run(ctx):
     from mc import core
     tasks, bounds = H.all_tasks(ctx.tier, ctx.seed)
     tasks = with_layouts(ctx, tasks)
+    tasks = tasks + history_tasks(ctx, tasks)
     k = (ctx.seed * 97) % max(1, len(tasks))
     tasks = tasks[k:] + tasks[:k]
     ctx.notes['bounds'] = bounds
@@ -70,6 +110,11 @@ def run(ctx):
     ctx.require(ctx.n('second_model_links_checked') >= 100, 'second-model family did not run (%d links checked)' % ctx.n('second_model_links_checked'))
     C05.guards(ctx, tasks)
     ctx.require(ctx.n('layout:lines') >= ctx.nd('programs'), 'the multi-line layout was not applied to every program')
+    ctx.require(ctx.n('layout:upper') >= 800 and ctx.n('layout:cap') >= 600,
+                'too few programs in upper-case / capitalised keywords (%d / %d)' % (ctx.n('layout:upper'), ctx.n('layout:cap')))
+    nh = len(H.histories())
+    ctx.require(ctx.n('history_runs') >= 20 * nh and ctx.n('history_not_judged') == 0 or ctx.caps_hit,
+                'history family: %d runs judged, %d not judged (%d histories)' % (ctx.n('history_runs'), ctx.n('history_not_judged'), nh))
     ctx.require(ctx.n('values') > 10 * ctx.nd('programs') and ctx.n('statements') > 3 * ctx.nd('programs'),
                 'too few value / statement instances were walked')
     from mc.refs import oalast
@@ -132,7 +177,7 @@ def replay(ctx, case):
         second_model_task(ctx, case)
         return
     task = dict(family=case['family'], stmts=case['stmts'], home=case['home'], entry=case.get('entry', 'action'),
-                layout=case.get('layout', 'default'))
+                layout=case.get('layout', 'default'), history=case.get('history'))
     H.c06_run(ctx, task)
 
 
@@ -149,6 +194,13 @@ def coverage(ctx):
         per_family=dict((k.split(':')[1], v) for k, v in ctx.counts.items() if k.startswith('family:')),
         per_layout=dict((k.split(':')[1], v) for k, v in ctx.counts.items() if k.startswith('layout:')),
         entry_points=dict(prebuild_action=ctx.n('entry:action'), prebuild_model=ctx.n('entry:model')),
+        history_family=dict(histories=H.histories(), rejected_texts=H.REJECTED_TEXTS, accepted_texts=H.ACCEPTED_TEXTS,
+                            runs_judged=ctx.n('history_runs'), runs_not_judged=ctx.n('history_not_judged'),
+                            steps=ctx.n('history_steps')),
+        keyword_case=dict(styles_quick=dict(upper='every program spelling a keyword through to the translator',
+                                            cap='those of the families %s' % (KWCASE_BOTH,)),
+                          styles_thorough='upper, cap, mixed for every such program',
+                          keywords=sorted(H.SPELLED_THROUGH)),
         features_exercised=ctx.nd('features'),
         max_statements_per_program=C05.sizes(ctx, 'statements'), max_block_depth=C05.sizes(ctx, 'depth'),
         rule='states = distinct (program, home) pairs; transitions = prebuild runs (one per state and layout, each on a fresh host); '
